@@ -280,7 +280,8 @@ def handle (j : Json) : R Json := do
     let p ← propsOf (← getObj j "props")
     let cfg ← cfgOf (← getObj j "cfg")
     let v ← valOf (← getObj j "v")
-    pure (Json.mkObj [("consistent", Json.bool (consistent p)), ("conf", Json.bool (conf cfg p v))])
+    pure (Json.mkObj [("consistent", Json.bool (consistent p)), ("conf", Json.bool (conf cfg p v)),
+                      ("strict", Json.bool (confStrict cfg p v)), ("base", Json.bool (confB cfg p v))])
   | o => throw s!"char: unknown op {o}"
 
 end Hap.Drv.Char
